@@ -58,7 +58,7 @@ def jobs(tier):
     for (m, n) in ([(2, 2), (1, 3)] if tier == "quick" else [(2, 2), (1, 3), (3, 1), (2, 3)]):
         J.extend(R("tensor_contractions", "h_tensor_contractions", {"VC_M": m, "VC_N": n}, "tensor-vector / vector-tensor / tensor-matrix contractions == their index definitions, added to the previous output",
                    fns=["TransposedTensorDVectorProduct", "DvectorTensorDotProduct", "TensorMatrixDotProduct"], cells=[(k, i) for k in range(2) for i in range(max(m, n))]))
-    for (m, n) in ([(2, 2), (2, 1)] if tier == "quick" else [(2, 2), (2, 1), (1, 2)]):   # row/column counts 1 and 2 only: then even a running-mean evaluation (divisions by 1, 2) stays exact
+    for (m, n) in [(2, 2), (2, 1)]:   # two rows (a single row has no sample variance / covariance); row/column counts 1 and 2 only: then even a running-mean evaluation (divisions by 1, 2) stays exact
         J.append(Job("col_statistics@M=%d,N=%d" % (m, n), "C11/kernels.c", entry="h_col_statistics", srcs=S, mode="ieee", kind="bounded",
                      defines={"VC_M": m, "VC_N": n, "VC_STATS": None}, unwind=max(m, n) + 3, timeout=900, stubs=["stubs/usqrt_stub.c"],
                      functions=["MatrixColAverage", "MatrixRowAverage", "MatrixColVar", "MatrixColSDEV", "MatrixColRMS", "MatrixCovariance", "Matrixnorm"],
